@@ -107,12 +107,17 @@ for k, v in SEQ.items():
 
 # Route / scale / relation spaces added in rounds 9-11 (DESIGN.md section 4a): appended likewise.
 R9 = {
- 'C01': 'every relation between consecutive blocks of a foreign-written resource list, re-signed (resigned.block_lists); issuers holding 1..129 (1025) blocks x every single-range claim over two strides through verify_issued and through certificates (resources.scale)',
- 'C02': 'block count x position of the queried item inside its block for AS, IPv4 and IPv6 (blocks.position); every compared identifier in every length around the expected one, primitive and constructed (identifier.spelling)',
- 'C06': '512 source items x 12 public construction routes of their component values, client data compared by ==, Hash, Ord and set membership both ways (rtr.construction_routes)',
- 'C07': 'header acquisition route (Header::read, as_mut fill, Header::new, the header try_read hands back) as a dimension of every dispatching reader in the round-trip, truncation and header-corruption spaces',
- 'C09': '28 sink behaviours (short, alternating, interrupted, buffered, failing once / for good after every n octets) x every file value (sinks.*); 14 URI construction routes x case spellings (routes.uri_constructors)',
- 'C11': 'every resource set a message carries through 17-19 public construction routes from every block list <= 3 (4) over both ends of the number space, all set pairs x 7 operations, round trip judged against the mathematically expected set (resources.routes.*, prov.resource_routes)',
+ 'C03': 'grid domains m*2^k and m*2^k-1 for every k the representation singles out (40 domains through all layers incl. closure to fixpoint); what a refusal names ({dom}.refusal)',
+ 'C04': 'named accessors judged for runaway against same-size controls with crafted key families for every keyed collection (time.growth)',
+ 'C05': '384 time values obtained by every public route x 65 builder field slots (build.time_value_routes)',
+ 'C08': 'everything the source reports moving at every point of the schedule (participants.reports); single PDUs around 2^13..2^17 in data.sizes; reserved header fields must be ignored',
+ 'C10': 'messages assembled from parts with independent issuers, all ordered pairs on fresh threads (history.parts); fold-colliding tampers after a genuine success (history.tamper); extra attribute types by their relation to the mandatory OIDs (attrs.oid_relation)',
+ 'C01': 'every relation between consecutive blocks of a foreign-written resource list, re-signed (resigned.block_lists); issuers holding 1..129 (1025) blocks x every single-range claim over two strides through verify_issued and through certificates (resources.scale); the number of distinct verification keys a thread has used, 0..=130 and around 256/512 (history.key_scale); subject key in {own, issuer\'s, trust anchor\'s} x AKI removed',
+ 'C02': 'block count x position of the queried item inside its block for AS, IPv4 and IPv6 (blocks.position); every compared identifier in every length around the expected one, primitive and constructed (identifier.spelling); prefix count x relation x layout x place x order for ROAs (roa.count.relation); fold-colliding tampers after a genuine success on one thread (history.fold_collision)',
+ 'C06': '512 source items x 12 public construction routes of their component values, client data compared by ==, Hash, Ord and set membership both ways (rtr.construction_routes); source events that change what is reported without moving the state, connection reuse and reconnect (rtr.unmoved_state)',
+ 'C07': 'header acquisition route (Header::read, as_mut fill, Header::new, the header try_read hands back) as a dimension of every dispatching reader in the round-trip, truncation and header-corruption spaces; recurring header fields of one client reply as independent dimensions (client.fields); variable parts across every power of two up to 2^17 x cut windows (fault.truncation.scale)',
+ 'C09': '28 sink behaviours (short, alternating, interrupted, buffered, failing once / for good after every n octets) x every file value (sinks.*); 14 URI construction routes x case spellings (routes.uri_constructors); generated valid documents whose runs exceed a per-element limit in total while no element does (limits.long_valid_documents)',
+ 'C11': 'every resource set a message carries through 17-19 public construction routes from every block list <= 3 (4) over both ends of the number space, all set pairs x 7 operations, round trip judged against the mathematically expected set (resources.routes.*, prov.resource_routes); what a process does first: 217 first operations in child processes (history.process)',
  'C12': '32 structured authorities (default ports, trailing dot, brackets, escapes, userinfo shapes) x schemes x tails, all ordered pairs and joins (authority_forms); TalUri construction routes (wrappers.taluri)',
  'C13': 'every public route that yields a value of the property\'s types: ASPA builder/decoder, ROA, RTR PDUs, SLURM, Arbitrary (routes.*)',
  'C16': 'every cut position of 1- and 2-PDU streams through every read route (wire.fragments)',
